@@ -358,6 +358,43 @@ example : ensureTree (.error (.osError (some Gen.EEXIST))) true = .ok () ∧
     deleteIfExists (.error (.osError (some 13))) = .error (.osError (some 13)) ∧
     deleteIfExists (.error .valueError) = .error .valueError := by decide
 
+/-! ### write_to_tempfile -/
+
+/-- **write_to_tempfile** — for every content (whatever object exposes it) and every path
+    argument: when ensure_tree (if called), mkstemp and os.write succeed, the new file holds
+    exactly the content, its descriptor is closed and the call returns; ensure_tree is called
+    iff the path argument is truthy -/
+theorem write_to_tempfile_exact (content : Bytes) (pathTruthy : Bool) (ensure : Except Exc Unit)
+    (h : pathTruthy = true → ensure = .ok ()) :
+    writeToTempfile content pathTruthy ensure (.ok ()) (.ok ()) =
+      ⟨.ok (), pathTruthy, some content, true⟩ := by
+  cases pathTruthy
+  · simp [writeToTempfile]
+  · simp [writeToTempfile, h rfl]
+
+/-- … it returns only in that case, the file never holds anything but the content (or nothing,
+    when os.write failed), the descriptor is closed whenever a file was created, and whatever
+    escapes is the exception of the first failing call, unchanged -/
+theorem write_to_tempfile_spec (content : Bytes) (pathTruthy : Bool)
+    (ensure mkstemp write : Except Exc Unit) :
+    let o := writeToTempfile content pathTruthy ensure mkstemp write
+    (o.result = .ok () ↔
+      (pathTruthy = true → ensure = .ok ()) ∧ mkstemp = .ok () ∧ write = .ok ()) ∧
+    (o.result = .ok () → o.file = some content) ∧
+    (∀ f, o.file = some f → f = content ∨ (f = [] ∧ ∃ e, write = .error e)) ∧
+    o.ensureCalled = pathTruthy ∧ (o.fdClosed = true ↔ o.file.isSome = true) ∧
+    (∀ e, o.result = .error e →
+      (pathTruthy = true ∧ ensure = .error e) ∨ mkstemp = .error e ∨ write = .error e) := by
+  cases pathTruthy <;> rcases ensure with e1 | ⟨⟩ <;> rcases mkstemp with e2 | ⟨⟩ <;>
+    rcases write with e3 | ⟨⟩ <;> simp [writeToTempfile]
+
+example : (writeToTempfile [1, 2, 3] true (.ok ()) (.ok ()) (.ok ())).file = some [1, 2, 3] ∧
+    (writeToTempfile [] false (.error .valueError) (.ok ()) (.ok ())).file = some [] ∧
+    (writeToTempfile [1] true (.error (.osError (some 20))) (.ok ()) (.ok ())).result =
+      .error (.osError (some 20)) ∧
+    (writeToTempfile [1] true (.ok ()) (.ok ()) (.error (.osError (some 28)))).file = some [] := by
+  decide
+
 /-! ### "succeed when the work is already done", on the one-path file-system model -/
 
 /-- ensure_tree on an existing directory succeeds and changes nothing; whenever it
